@@ -7,6 +7,8 @@ timeout 0 and, when nothing is ready, the clock *jumps* by the timeout asyncio a
   polls 1 ms apart (to let the kernel deliver loopback data), then Quiescent is raised out of run_until_complete.
 * busy-wait compensation: after 50 consecutive zero-timeout polls the clock advances 1 ms per iteration (a cancelled
   scope around a shielded wait re-arms a call_soon every turn, which would otherwise freeze virtual time).
+* io_expected hint: while the scenario reports bytes in flight through the kernel, a timer jump is preceded by a real
+  wait (up to io_grace s) for fd readiness, so that a delayed window update is never read as "stranded for ever".
 * iteration counter + two injection slots per iteration: before_io(k, fn) runs at the head of iteration k (before that
   iteration's I/O callbacks), after_io(k, fn) runs after them (zero-delay timer). The ready queue is never permuted.
 """
@@ -70,6 +72,25 @@ class _VSelector:
                 return self._sel.select(0.05)
             raise Quiescent(f"loop quiescent at virtual time {loop._vtime:.3f}, iteration {loop.iteration}")
         if timeout > 0:
+            hint = loop.io_expected
+            if hint is not None and hint():
+                # the scenario says bytes are in flight through the kernel (e.g. a reader draining a socket whose sender is
+                # blocked on a tiny window): window updates / delayed ACKs take real milliseconds, which must not be
+                # mistaken for "nothing will ever happen" -> wait for real readiness before letting virtual time jump
+                loop.real_waits += 1
+                events = self._sel.select(loop.io_grace)
+                if events:
+                    loop._zero_polls = 0
+                    return events
+                loop.real_stalls += 1
+            elif loop.micro_grace and len(self._sel.get_map()) > 1:
+                # real sockets are registered: loopback delivery is synchronous on an idle kernel, but a deferred softirq
+                # takes a few real milliseconds -> one short real wait before the clock jumps over in-flight bytes
+                events = self._sel.select(loop.micro_grace)
+                if events:
+                    loop._zero_polls = 0
+                    loop.late_deliveries += 1
+                    return events
             loop._zero_polls = 0
             loop._vtime += timeout
             loop.jumps += 1
@@ -88,6 +109,12 @@ class VirtualLoop(asyncio.SelectorEventLoop):
         self.polls = 0
         self.jumps = 0
         self.allow_block_on_threads = False
+        self.io_expected: Callable[[], bool] | None = None  # scenario hint: real kernel I/O is in flight
+        self.io_grace = 20.0  # real seconds a jump is postponed while io_expected() holds
+        self.real_waits = 0
+        self.micro_grace = 0.005  # real seconds waited before any jump while real sockets are registered
+        self.late_deliveries = 0
+        self.real_stalls = 0
         self.max_iterations: int | None = None  # logical step budget (Spinning is raised beyond it)
         self._before: dict[int, list[Callable[[], Any]]] = {}
         self._after: dict[int, list[Callable[[], Any]]] = {}
